@@ -16,7 +16,8 @@ from ..fakeserial import EBB3Board, FakePort, Profile, QUIET
 
 PROPERTY = "C04"
 
-EXC_KINDS = ("SerialException", "OSError")   # what pyserial backends raise (RuntimeError is not)
+EXC_KINDS = ("SerialException", "SerialTimeoutException", "PortNotOpenError", "OSError")
+# (what pyserial back ends raise; RuntimeError is not among them)
 FAULTS = Profile(write_exc=EXC_KINDS, read_exc=EXC_KINDS,
                  latency=(0, 1, 26), content=("err", "nameerr", "wrong"), silent=True,
                  read_window=2)
@@ -335,7 +336,7 @@ def run(ctx):
         "exhaustive": True,
     }
     assumptions = [
-        "environment alphabet per I/O point: write raises (SerialException, OSError), board "
+        "environment alphabet per I/O point: write raises (SerialException, SerialTimeoutException, PortNotOpenError, OSError), board "
         "silent, reply late (1 or 26 empty reads), device error line, name+error line, wrong-name "
         "line, read raises at the first two reads of each request",
         "a blocked method that performs no I/O meets no choice point, so running blocked "
